@@ -108,7 +108,7 @@ NO_PANIC += ["std::option::Option::replace", "std::option::Option::insert", "std
              "std::borrow::Cow::", "std::borrow::Borrow::borrow", "std::borrow::BorrowMut::borrow_mut", "std::convert::AsMut::as_mut", "std::convert::TryFrom::try_from",
              "std::convert::identity", "std::rc::Rc::new", "std::rc::Rc::clone", "std::sync::Arc::new", "std::boxed::Box::from", "std::boxed::Box::into_raw",
              "core::slice::as_chunks", "core::slice::as_rchunks", "core::slice::first_chunk", "core::slice::last_chunk", "core::slice::split_first_chunk",
-             "std::array::from_fn", "core::array::from_fn", "std::array::IntoIter::", "core::array::iter::", "std::option::Option::zip",
+             "std::array::from_fn", "core::array::from_fn", "std::array::map", "core::array::map", "std::iter::repeat_with", "std::iter::Iterator::take", "std::array::IntoIter::", "core::array::iter::", "std::option::Option::zip",
              "core::bool::then", "std::iter::Iterator::try_for_each", "std::iter::Iterator::try_fold", "std::iter::successors", "std::iter::from_fn",
              "core::slice::split_first", "core::slice::split_last", "std::mem::take", "std::vec::Vec::retain", "std::fmt::Display::fmt",
              "std::error::Error::", "std::any::Any::type_id", "std::hash::Hasher::", "std::hash::BuildHasher::"]
